@@ -6,6 +6,6 @@ PROP = dict(
          'the Lean model; distinct = by hash of (op, observation); non-trivial = an allocation that returned a frame or a free',
     trusted=['reserveRegionFn/mapFn are scripted (vmm is covered by C04/C07)', 'multiboot block built by the harness (decoder covered by C10)'],
     assumptions=['memory map sorted, non-overlapping, addr+len < 2^64, fewer than 2^32 frames', 'kernel image page-aligned start, inside one available region'],
-    level_text='TODO',
-    level_note='TODO',
+    level_text="Lean theorems about the executable pmm model: AllocFrame/FreeFrame refine 'remove/add one frame of the free set' under the representation invariant (alloc_refines, free_refines), and for every history the frames handed out come from the initially free set and are never held twice (exclusive, conservation). Model tied to the Go code by regenerated constants and a differential run of Init/AllocFrame/FreeFrame on generated memory maps, with the property oracle evaluated on the implementation's observations.",
+    level_note='Trusted: Lean kernel (+ propext, Classical.choice, Quot.sound), theorem statements, harness (differential testing, not proof about Go), Nat arithmetic for addresses (addr+len < 2^64, < 2^32 frames). That initialisation establishes the invariant with free set = usable RAM is proved for the bitmap set-up and shown by the oracle on every generated map; see DESIGN.md C01-C03.',
 )
